@@ -20,13 +20,29 @@ from .common.model import Model, nats
 from .common.report import Part, guarded
 
 USERS = [('alice', 'pwalice'), ('bob', 'pwbob')]
-NAMES = ['a', 'b', '', 'café', 'q"uo\\te', 'with space', '中', 'A', 'x' * 40, 'a\tb', '{3}', 'NIL']
+NAMES = ['a', 'b', '', 'café', 'q"uo\\te', 'with space', '中', 'A', 'x' * 40, 'a\tb', '{3}', 'NIL',
+         # names whose bytes are not UTF-8 (kept as str through surrogateescape): the server may refuse them, or accept them and then keep them apart
+         b'caf\xe9'.decode('utf-8', 'surrogateescape'), b'caf\xe8'.decode('utf-8', 'surrogateescape'), b'\xff'.decode('utf-8', 'surrogateescape'),
+         b'a\xc3'.decode('utf-8', 'surrogateescape')]
+
+
+def nbytes(n):
+    return n.encode('utf-8', 'surrogateescape')
+
+
+def utf8(n):
+    try:
+        n.encode('utf-8')
+        return True
+    except UnicodeEncodeError:
+        return False
+
 SCRIPTS = [b'keep;', b'', b'discard;\r\n', b'\x00\xff bin', b'if true { keep; }', b'x' * 300, b'not a script (']
 MAXLEN = 200
 
 
 def qs(s):
-    b = s.encode('utf-8') if isinstance(s, str) else s
+    b = nbytes(s) if isinstance(s, str) else s
     if any(c in b for c in b'\r\n\x00') or any(c > 126 for c in b) and False:
         return b'{%d+}\r\n' % len(b) + b
     if any(c in b for c in b'\r\n\x00'):
@@ -63,7 +79,7 @@ def _make_cmd(k, r, compiles):
     n = r.choice(NAMES[:2] + NAMES[3:5]) if r.random() < 0.65 else r.choice(NAMES)
     n2 = r.choice(NAMES[:2] + NAMES[3:5]) if r.random() < 0.65 else r.choice(NAMES)
     sc = r.choice(SCRIPTS)
-    nb = n.encode('utf-8')
+    nb = nbytes(n)
     if k == 'put':
         return b'PUTSCRIPT ' + qs(n) + b' ' + lit(sc) + b'\r\n', f'put:{nats(nb)}:{nats(sc)}', ('put', n, sc)
     if k == 'get':
@@ -80,14 +96,14 @@ def _make_cmd(k, r, compiles):
     if k == 'delete':
         return b'DELETESCRIPT ' + qs(n) + b'\r\n', f'delete:{nats(nb)}', ('delete', n)
     if k == 'rename':
-        return b'RENAMESCRIPT ' + qs(n) + b' ' + qs(n2) + b'\r\n', f'rename:{nats(nb)}:{nats(n2.encode("utf-8"))}', ('rename', n, n2)
+        return b'RENAMESCRIPT ' + qs(n) + b' ' + qs(n2) + b'\r\n', f'rename:{nats(nb)}:{nats(nbytes(n2))}', ('rename', n, n2)
     if k == 'check':
         sc = r.choice([b'keep;', b'if true { keep; }', b'not a script (', b'discard;\r\n'])
         ok = compiles(sc)
         return b'CHECKSCRIPT ' + lit(sc) + b'\r\n', f'check:{nats(sc)}:{int(ok)}', ('check', sc, ok)
     if k == 'havespace':
         size = r.choice([0, 10, MAXLEN, MAXLEN + 1, 10 ** 6])
-        return b'HAVESPACE ' + qs(n) + b' %d\r\n' % size, f'havespace:{nats(nb)}:{size}', ('havespace', size)
+        return b'HAVESPACE ' + qs(n) + b' %d\r\n' % size, f'havespace:{nats(nb)}:{size}', ('havespace', size, n)
     if k == 'noop':
         return b'NOOP\r\n', 'noop', ('noop',)
     if k == 'cap':
@@ -225,7 +241,7 @@ def ref_matches(expect, got):
     if isinstance(expect, tuple) and expect[0] == 'SCRIPT':
         return got == 'SCRIPT:' + nats(expect[1])
     if isinstance(expect, tuple) and expect[0] == 'LIST':
-        return got == 'LIST:' + ';'.join(nats(n.encode('utf-8')) + '=' + ('1' if a else '0') for n, a in expect[1])
+        return got == 'LIST:' + ';'.join(nats(nbytes(n)) + '=' + ('1' if a else '0') for n, a in expect[1])
     if expect == 'NO':
         return got.startswith('NO:')
     return got == expect
@@ -319,6 +335,18 @@ async def run_case(part, m, conns, case_key):
                 if ref.user is None and op[0] == 'junk':
                     continue
                 continue
+            if any(isinstance(x, str) and not utf8(x) for x in op[1:]):
+                # a name that is not UTF-8: refusing it is consistent (the Sieve model does); if it is accepted, it is a name like any other
+                # for the reference map, and the listings that follow show whether it is kept apart from its neighbours
+                part.stat('sieve-non-utf8-name')
+                if got.startswith('NO') or got == 'BYE':
+                    continue
+                part.violation('correspondence', f'C19: connection {ci} command {w[:60]!r} carries a name that is not UTF-8 and was answered {got[:60]}; the Sieve model refuses such names',
+                               case, signature='sieve-non-utf8-accepted')
+                expect = ref.step(op)
+                if not ref_matches(expect, got):
+                    part.violation('monitor', f'C19: connection {ci} command {w[:60]!r}: answered {got[:120]}, the reference map says {expect}', case, signature='sieve-ref')
+                continue
             mod, muser = norm_model(m.ask('sieve step ' + tok), tok)
             impl = got
             if impl.startswith('NO:') and impl[3:] not in ('QUOTA/MAXSIZE', 'NONEXISTENT', 'ACTIVE', 'ALREADYEXISTS', 'Bad command.'):
@@ -354,7 +382,7 @@ async def run_case(part, m, conns, case_key):
     final = await dump_users(srv)
     for ui, (u, _) in enumerate(USERS):
         d, act = ref.store[ui]
-        want = sorted((n.encode('utf-8'), bytes(b), n == act[0]) for n, b in d.items())
+        want = sorted((nbytes(n), bytes(b), n == act[0]) for n, b in d.items())
         if final[ui] != want:
             part.violation('monitor', f'C19: at the end user {u} holds {final[ui]!r}, the reference map says {want!r}', case, signature='sieve-final')
     part.case(key=case_key, nontrivial=nontrivial, sample=dict(log=log[:8]))
